@@ -134,6 +134,12 @@ package fastcgi
 //@ use caskethttp/fastcgi/contracts_verif.go:fcgi_client_api
 //@ func DialContext
 //@   ensures result1 == nil ==> result0 != nil
+//@ // C13: "a request for an existing file with the rule's extension (in any letter case) is always sent to the responder":
+//@ // the extension test that routes a request to FastCGI is made on case-folded strings (a thin contract makes the
+//@ // handler's non-nil parameters explicit preconditions)
+//@ func (Handler).ServeHTTP
+//@   requires r != nil && r.URL != nil && r.Header != nil && w != nil
+//@   at call strings.HasSuffix#2 assert [extension_compared_in_any_letter_case] arg0 == strings.ToLower(fpath) && arg1 == strings.ToLower(rule.Ext)
 //@ // proved when buildEnv is verified (excluded for now: its map literal is too large for the current encoding)
 //@ func (Handler).buildEnv
 //@   ensures result1 == nil ==> result0 != nil
